@@ -155,7 +155,14 @@ def parse_google_drive_url(url):
         if path[2] != "e":
             return None
 
+        if not path[3]:
+            return None
+
         return GoogleDrivePublicLink(drive_type, path[3])
+
+    # NOTE: "/document/d//edit" has no id
+    if not path[2]:
+        return None
 
     return GoogleDriveFile(drive_type, path[2])
 
